@@ -45,3 +45,25 @@ def keyLeading (eol : List Char) (multiline singleToken : Bool) (keyLead keyTrai
     (if multiline then [Out.indent] else [])
 
 end StyluaModel.FieldKey
+
+/-
+Model of the comma handling of format_punctuated_multiline (/repo/src/formatters/general.rs 437-491: value lists of
+assignments and returns laid out one value per line): the formatted value's trailing comments are taken off and put
+*behind* the comma, in front of the comma's own (formatted) trailing trivia; the comma's leading trivia stays where it
+is; from the second value on, the value's leading comments get a line each (prepend_newline_indent).
+`vLead` / `vTrail` are the trivia of the *formatted* value (a parameter: built by the value formatter).
+-/
+namespace StyluaModel.Punct
+open StyluaModel.Trivia StyluaModel.Semi StyluaModel.FieldKey StyluaModel.HangOp
+
+/-- prepend_newline_indent -/
+def prependNewlineIndent (vLead : List Out) : List Out :=
+  ownLine (onlyComments vLead) ++ [Out.newline, Out.indent]
+
+/-- what is printed after a value that is followed by a comma: the comma's leading trivia, the comma (`none`),
+its new trailing trivia -/
+def afterValue (eol : List Char) (vTrail : List Out) (pLead pTrail : List Triv) : List (Option Out) :=
+  (load eol .leading pLead).map some ++ [none] ++
+    (sameLine (onlyComments vTrail) ++ load eol .trailing pTrail).map some
+
+end StyluaModel.Punct
